@@ -884,6 +884,8 @@ class Interp:
                 return len(recv)
             if m == "entry" and args:
                 return ("entry", recv, hkey(args[0]))
+            if m in ("iter", "iter_mut", "into_iter") and getattr(recv, "is_map", False):
+                return ("list", [("tuple", [k, v]) for k, v in recv.items()])      # a map yields (key, value) pairs
             if m in ("iter", "keys"):
                 return ("list", list(recv.keys()))
             if m == "values":
